@@ -2,7 +2,13 @@ import Dnp3.Driver.Util
 import Dnp3.Model.Database
 /-! engine `db`: the outstation database model behind the line protocol of `harness/src/eng_db.rs`
 
-ops:  new <evmax> [<max_read_sel>] | add bin|an <idx> <class> | upd bin|an <idx> <value> <flags> <time>
+ops:  new <evmax> [<max_read_sel>]                      binary and analog inputs `evmax` events each
+      newc <bin> <dbl> <bos> <ctr> <frz> <an> <aos> <os> <class-zero mask> [<max_read_sel>]
+                                                        per-type maxima; mask bit i = type i is in class 0
+      add <type> <idx> <class> [<svar> <evar> [<deadband>]]   type = bin|dbl|bos|ctr|frz|an|aos|os
+      upd <type> <idx> <value> <flags> <time>           value: integer; octet string: hex octets or `-`
+      updo <type> <idx> <value> <flags> <time> <opts>   the same with `UpdateOptions` number <opts>: 0..2 = Detect /
+                                                        Force / Suppress, +3 = `update_static` false
       select <hex of READ object headers> | write <cap> | unsol <c1c2c3 bits> <cap> | clear | reset | iin
 out:  add true|false | upd nopoint|noevent|created <id>|overflow <created> <discarded>
       sel <iin2> | parse-error | resp <hex> <has_events 0|1> <complete 0|1> | unsol <hex> <count>
@@ -18,7 +24,16 @@ structure DbState where
 deriving Inhabited
 
 def ptOf (s : String) : Option PtType :=
-  if s == "bin" then some .binary else if s == "an" then some .analog else none
+  if s == "bin" then some .binary else if s == "dbl" then some .doubleBitBinary
+  else if s == "bos" then some .binaryOutputStatus else if s == "ctr" then some .counter
+  else if s == "frz" then some .frozenCounter else if s == "an" then some .analog
+  else if s == "aos" then some .analogOutputStatus else if s == "os" then some .octetString else none
+
+/-- the measurement of an `upd` op: an octet string's value is hex (`-` = empty) -/
+def measOf (t : PtType) (value : String) (flags time : Nat) : Option Meas :=
+  match t with
+  | .octetString => (parseHex value).map mkOctets
+  | _ => (value.toInt?).map fun v => mkMeas t v flags time
 
 def b01 (b : Bool) : String := if b then "1" else "0"
 
@@ -45,8 +60,15 @@ def dbStep (s : DbState) (line : String) : DbState × List String :=
   | [] => (s, [])
   | "new" :: rest =>
     match rest.map String.toNat? with
-    | [some ev] => ({ db := Db.new ev none, dead := false }, ["ok"])
-    | [some ev, some sel] => ({ db := Db.new ev (some sel), dead := false }, ["ok"])
+    | [some ev] => ({ db := Db.new (legacyEv ev) none, dead := false }, ["ok"])
+    | [some ev, some sel] => ({ db := Db.new (legacyEv ev) (some sel), dead := false }, ["ok"])
+    | _ => (s, ["bad-op"])
+  | "newc" :: rest =>
+    match rest.mapM String.toNat? with
+    | some (b :: d :: bo :: c :: f :: a :: ao :: o :: cz :: sel) =>
+      if sel.length > 1 then (s, ["bad-op"]) else
+      ({ db := Db.newCfg ⟨b, d, bo, c, f, a, ao, o⟩ (TyVec.ofFn fun t => cz / 2 ^ tyIdx t % 2 == 1) sel.head?,
+         dead := false }, ["ok"])
     | _ => (s, ["bad-op"])
   | _ =>
   if s.dead then
@@ -68,12 +90,36 @@ def dbStep (s : DbState) (line : String) : DbState × List String :=
       let (db, r) := s.db.add t idx cls
       ({ s with db := db }, [s!"add {r}", "ok"])
     | _, _, _ => (s, ["bad-op"])
-  | ["upd", t, idx, value, flags, time] =>
-    match ptOf t, idx.toNat?, value.toInt?, flags.toNat?, time.toNat? with
-    | some t, some idx, some value, some flags, some time =>
-      let (db, r) := s.db.update t idx value flags time
-      ({ s with db := db }, [updStr r, "ok"])
+  | ["add", t, idx, cls, sv, ev] =>
+    match ptOf t, idx.toNat?, cls.toNat?, sv.toNat?, ev.toNat? with
+    | some t, some idx, some cls, some sv, some ev =>
+      let (db, r) := s.db.addCfg t idx cls sv ev 0
+      ({ s with db := db }, [s!"add {r}", "ok"])
     | _, _, _, _, _ => (s, ["bad-op"])
+  | ["add", t, idx, cls, sv, ev, dbd] =>
+    match ptOf t, idx.toNat?, cls.toNat?, sv.toNat?, ev.toNat?, dbd.toNat? with
+    | some t, some idx, some cls, some sv, some ev, some dbd =>
+      let (db, r) := s.db.addCfg t idx cls sv ev dbd
+      ({ s with db := db }, [s!"add {r}", "ok"])
+    | _, _, _, _, _, _ => (s, ["bad-op"])
+  | ["updo", t, idx, value, flags, time, opts] =>
+    match ptOf t, idx.toNat?, flags.toNat?, time.toNat?, opts.toNat? with
+    | some t, some idx, some flags, some time, some opts =>
+      match measOf t value flags time with
+      | some m =>
+        let (db, r) := s.db.updateOpt t idx m (optsOfCode opts)
+        ({ s with db := db }, [updStr r, "ok"])
+      | none => (s, ["bad-op"])
+    | _, _, _, _, _ => (s, ["bad-op"])
+  | ["upd", t, idx, value, flags, time] =>
+    match ptOf t, idx.toNat?, flags.toNat?, time.toNat? with
+    | some t, some idx, some flags, some time =>
+      match measOf t value flags time with
+      | some m =>
+        let (db, r) := s.db.updateM t idx m
+        ({ s with db := db }, [updStr r, "ok"])
+      | none => (s, ["bad-op"])
+    | _, _, _, _ => (s, ["bad-op"])
   | ["select", hex] =>
     match parseHex hex with
     | none => (s, ["bad-op"])
